@@ -54,7 +54,8 @@ func VerifC08_Refresh() {
 	case 5:
 		nw.sigOK = false
 	case 6:
-		verifrt.FaultBudget = 1
+		verifrt.FaultBudget = verifrt.Param("faults", 1)
+		verifrt.CloseFaults = true
 	}
 	rerr := w.repo.UpdateCRL(loc, chainsOf(c0))
 	verifrt.FaultBudget = 0
@@ -69,7 +70,12 @@ func VerifC08_Refresh() {
 	// Not claimed: the environment refuses, persistently, to open the database directory at its live
 	// name. No implementation can serve lookups then; the store must fail closed (checked) and the
 	// situation lasts until the directory can be opened again (restart).
-	liveOpenRefused := len(injected) == 1 && strings.HasPrefix(injected[0], "open /work/h-")
+	liveOpenRefused := false
+	for _, f := range injected {
+		if strings.HasPrefix(f, "open /work/h-") {
+			liveOpenRefused = true
+		}
+	}
 	if liveOpenRefused {
 		verifrt.Reach("live-open-refused")
 		verifrt.Assert(rerr != nil, "refresh reports the failure")
